@@ -147,11 +147,16 @@ class _P:
         self.p += n
         return Tok(kind, val)
 
+    def _lit_start(self) -> bool:
+        c = self.peek()
+        return c == ord('{') or (c == ord('~') and
+                                 self.d[self.p + 1:self.p + 2] == b'{')
+
     def string(self) -> Tok:
         c = self.peek()
         if c == 0x22:
             return Tok('quoted', self.quoted())
-        if c in (ord('{'), ord('~')):
+        if self._lit_start():
             return self.literal()
         raise self.err('expected string')
 
@@ -165,7 +170,7 @@ class _P:
 
     def astring(self) -> Tok:
         c = self.peek()
-        if c in (0x22, ord('{'), ord('~')):
+        if c == 0x22 or self._lit_start():
             return self.string()
         return Tok('atom', self.atom(_ASTRING_EXTRA))
 
@@ -176,7 +181,7 @@ class _P:
         c = self.peek()
         if c == ord('('):
             return self.plist(lambda: self.value(depth + 1))
-        if c in (0x22, ord('{'), ord('~')):
+        if c == 0x22 or self._lit_start():
             return self.string()
         a = self.atom({ord('\\'), ord(']')})
         if a == b'NIL':
